@@ -55,8 +55,12 @@ def main():
             prop = meta["property"]
             expected_silent = meta.get("expected") == "silent"
             shutil.copy(VERIF / "seeded" / name / "demo.py", f"{WT}/_demo.py")
+            stub = VERIF / "seeded" / name / "seed_stub"
+            if stub.exists():
+                shutil.copytree(stub, f"{WT}/seed_stub", dirs_exist_ok=True)
             rc, out = sh("/venv/bin/python _demo.py", cwd=WT)
             Path(f"{WT}/_demo.py").unlink()
+            shutil.rmtree(f"{WT}/seed_stub", ignore_errors=True)
             crc, cout = sh(f"./check {prop} --repo {WT} --no-evidence --evidence-dir /tmp/sr_ev_{name}", cwd=VERIF)
             sh(f"rm -rf /tmp/sr_ev_{name}")
             if expected_silent:
@@ -70,9 +74,11 @@ def main():
         if not ok:
             print(f"{name}: NOT STORED - {why}")
             continue
+        # a seed whose demonstration also needs the stub solver: copy it next to the demo when running
+
         shutil.copy(rb, VERIF / "seeded" / name / "patch.diff")
         note = (d / "REBASE_NOTE.md").read_text().strip().replace("\n", " ")[:600] if (d / "REBASE_NOTE.md").exists() else ""
-        meta["rebased"] = (meta.get("rebased", "") + "; " if meta.get("rebased") else "") + "re-based by hand onto the ten /repo fixes c99d24a..7b0a307 (delegated, re-verified: " + \
+        meta["rebased"] = (meta.get("rebased", "") + "; " if meta.get("rebased") else "") + f"re-based onto /repo {head[:7]} (delegated or 3-way, re-verified: " + \
             ("all checks silent" if name.startswith("refactor") else "demonstration fails with the change, the check reports it") + "). " + note
         json.dump(meta, open(meta_p, "w"), indent=1)
         print(f"{name}: stored")
